@@ -119,10 +119,6 @@ package graphql
 //@   trusted
 //@   functional
 
-//@ func Plan.abstractAlternative
-//@   trusted
-//@   assigns nothing
-
 //@ func executePlannedSelection
 //@   props C20 C13 C01
 //@   nosafety
@@ -518,6 +514,7 @@ package graphql
 //@ func Plan.abstractAlternative
 //@   props C01 C07 C09 C19
 //@   nosafety
+//@   assigns class:fieldPlan.abstractAlternatives, class:M|*graphql.Object|*graphql.selectionPlan
 //@   requires p != nil && fp != nil && !held(&p.abstractMu)
 //@   ensures !held(&p.abstractMu)
 //@   panics !held(&p.abstractMu)
